@@ -20,6 +20,8 @@ def obs_emis(r):     # verdict; on success the reported (non-fatal) errors
     return (r.kind, tuple(r.errs) if r.kind == "OK" else None)
 def obs_vv_emis(r):
     return (r.kind, r.val, tuple(r.errs) if r.kind == "OK" else None)
+def obs_vv_emis_last(r):   # value + emissions on success, primary error on failure
+    return (r.kind, r.val, tuple(r.errs) if r.kind == "OK" else r.last())
 
 def sem_view(obs, r):
     """The same observable computed from the specification's result line (on failure sem prints
@@ -43,6 +45,14 @@ class Spec:
         self.gen_hook = gen_hook
         self.cross = cross              # oracle across the cases of one (grammar, input)
         self.emit_bias = emit_bias
+        self.all_kinds = False
+
+    @staticmethod
+    def inp_for_kind(ik, inp):
+        # token inputs with their own spans: token i spans 3i+1 .. 3i+2 (gaps between all tokens and before the first)
+        if ik in ("mapped", "mappedstream", "iter"):
+            return [[t, 3 * i + 1, 3 * i + 2] for i, t in enumerate(inp)]
+        return inp
 
     def cases(self, rng, tier, start_id=1):
         """Yields (id, line, meta) with meta = dict(g=..., inp=..., ikind, ekind, mode, group)."""
@@ -54,13 +64,13 @@ class Spec:
         for gi in range(n):
             g = self.gen_hook(G, rng) if self.gen_hook else G.g(rng.randint(*self.depth))
             eks = list(self.ekinds) if (len(self.ekinds) == 1 or rng.random() < 0.35) else [self.ekinds[0]]
-            iks = list(self.ikinds) if rng.random() < 0.5 else [self.ikinds[0]]
+            iks = list(self.ikinds) if (self.all_kinds or rng.random() < 0.5) else [self.ikinds[0]]
             for inp in inputs_for(rng, g, self.alpha, extra_alpha=[EURO] if rng.random() < 0.2 else []):
                 group += 1
                 for ik in iks:
                     for ek in eks:
                         for md in self.modes:
-                            yield cid, sx([cid, ik, ek, md, g, inp]), dict(g=g, inp=inp, ikind=ik, ekind=ek, mode=md, group=group)
+                            yield cid, sx([cid, ik, ek, md, g, self.inp_for_kind(ik, inp)]), dict(g=g, inp=inp, ikind=ik, ekind=ek, mode=md, group=group)
                             cid += 1
 
 # ----------------------------------------------------------------------------------------------
@@ -141,6 +151,24 @@ SPECS = {
                 nontrivial=lambda g, inp: has_head(g, set(RECOVER)),
                 rule="C01/C02 grammars with recover_with(via_parser | skip_until | skip_then_retry_until) at random positions and nesting; "
                      "non-trivial = a recovery node present"),
+    "C09": Spec("C09", ["Just"], obs_vv, ekinds=("rich",), ikinds=("str", "slice"), n_quick=900, n_thorough=12000,
+                gen_hook=lambda G, rng: (G.pratt() if rng.random() < 0.8 else ["Then", G.pratt(), ["OrNot", ["Just", [rng.choice([59, 43, 42])]]]]),
+                nontrivial=lambda g, inp: len(inp) >= 3,
+                rule="operator tables of 1..6 operators over 6 symbols and 4 binding powers (same symbol may be prefix, postfix and infix), tuple and Vec "
+                     "tables, optionally followed by a trailing token; inputs sampled as operand (op operand)* with prefix/postfix, mutated/truncated/extended; "
+                     "observable: the fully structured tree with the span given to every fold; non-trivial = input of >= 3 tokens"),
+    "C11": Spec("C11", CORE + ITER + ["Validate"], obs_full, sem_obs=obs_vv_emis_last, ekinds=("rich", "simple"), n_quick=700,
+                gen_hook=lambda G, rng: (G.leftrec() if rng.random() < 0.12 else G.memoize(G.rec(3) if rng.random() < 0.2 else G.g(rng.randint(2, 4)), 0.35)),
+                nontrivial=lambda g, inp: len(inp) > 0 and has_head(g, {"Memo"}),
+                rule="C01/C02 grammars and guarded recursive grammars with memoized() inserted at random subsets of nodes (nested and adjacent placements "
+                     "included; the boxed builder gives every node its own address), plus the left-recursive family expr = (expr op atom).memoized() | atom; "
+                     "oracle: the specification in which memoized() is the identity; non-trivial = a memoized node present, non-empty input"),
+    "C12": Spec("C12", CORE + ["Rec"] * 4, obs_vv, ekinds=("rich",), ikinds=("str", "slice"), n_quick=700,
+                gen_hook=lambda G, rng: (G.rec(3) if rng.random() < 0.85 else ["Then", G.rec(2), G.g(1)]),
+                nontrivial=lambda g, inp: len(inp) >= 2,
+                rule="guarded recursive grammars (recursive() and Recursive::declare/define; nested delimiters, right recursion, recursion under "
+                     "repetition, mutually recursive pairs, recursion through map/labelled), inputs nested to sampled depths 0..4 then mutated; "
+                     "plus impl-only runs nested 2*10^5 deep (thorough: 10^6); non-trivial = input of >= 2 tokens"),
     "C15": Spec("C15", CORE + ITER + CTX * 5 + ["MapWith"], obs_vv, ekinds=("rich",),
                 nontrivial=lambda g, inp: len(inp) > 0 and has_head(g, set(CTX)),
                 rule="C01/C02 grammars with with_ctx / ignore_with_ctx / then_with_ctx / map_ctx providers, configure()d just and "
